@@ -42,7 +42,8 @@ def case_text(c):
     for i, p in enumerate(c["inputs"]):
         o.append(f"input {i} w={p['w']} clk={p['clk']}")
     for i, r in enumerate(c["regs"]):
-        o.append(f"reg {i} clk={r['clk']} w={r['w']} rstval={r['rstval'] or '-'} d={r['d'] or '-'} en={r['en'] or '-'}")
+        o.append(f"reg {i} clk={r['clk']} w={r['w']} rstval={r['rstval'] or '-'} d={r['d'] or '-'} en={r['en'] or '-'}"
+                 + (" scopes=" + ";".join(k if k == "A" else f"{k}:{e}" for k, e in r["scopes"]) if r.get("scopes") is not None else ""))
     o.append("order " + " ".join(str(x) for x in c["order"]))
     for t, clk, lv in c["rstev"]:
         o.append(f"rstev {fr(t)} {clk} {int(lv)}")
@@ -73,7 +74,8 @@ def parse_cases(text):
             c["inputs"].append(dict(w=int(kv["w"]), clk=int(kv["clk"])))
         elif tok[0] == "reg":
             c["regs"].append(dict(clk=int(kv["clk"]), w=int(kv["w"]), rstval=None if kv["rstval"] == "-" else kv["rstval"],
-                                  d=None if kv["d"] == "-" else kv["d"], en=None if kv["en"] == "-" else kv["en"]))
+                                  d=None if kv["d"] == "-" else kv["d"], en=None if kv["en"] == "-" else kv["en"],
+                                  scopes=None if "scopes" not in kv else [("A", None) if t == "A" else (t[0], t[2:]) for t in kv["scopes"].split(";") if t]))
         elif tok[0] == "order":
             c["order"] = [int(x) for x in tok[1:]]
         elif tok[0] == "rstev":
@@ -234,6 +236,31 @@ def ev_expr(e, outs, ins):
     return go()
 
 
+def and3(x, y):
+    return "0" if x == "0" or y == "0" else ("1" if x == "1" and y == "1" else "X")
+
+
+def scoped_enable(scopes, outs, ins):
+    """enable of a register created by the frontend inside nested scopes (outermost first), written down flat:
+    every ENIF condition and every IF / ELSE literal around the register contributes to one conjunction; ENALWAYS
+    drops what has been collected for the enable so far; an IF / ELSE brings in ALL IF / ELSE literals around it"""
+    terms, iflits = [], []
+    for kind, e in scopes:
+        if kind == "A":
+            terms = []
+            continue
+        v = ev_expr(e, outs, ins)
+        if kind == "E":
+            terms.append(v)
+        else:
+            iflits.append(v if kind == "I" else {"0": "1", "1": "0", "X": "X"}[v])
+            terms += iflits
+    r = "1"
+    for t in terms:
+        r = and3(r, t)
+    return r
+
+
 def oracle(c, stats=None):
     """expected log lines for one case (same text as harness / model); `stats` counts which register rule fired"""
     def hit(k):
@@ -337,7 +364,13 @@ def oracle(c, stats=None):
                 else:
                     hit("advance_ignored_in_async_reset")
                 continue
-            en = ev_expr(regs[r]["en"], pre, pre_in) if regs[r]["en"] else "1"
+            if regs[r].get("scopes") is not None:
+                en = scoped_enable(regs[r]["scopes"], pre, pre_in)
+                hit("enable_from_scopes_depth_%d" % len(regs[r]["scopes"]))
+                if en != "1" and len(regs[r]["scopes"]) > 2 and scoped_enable(regs[r]["scopes"][-2:], pre, pre_in) == "1":
+                    hit("enable_not_1_only_because_of_a_scope_two_or_more_levels_up")
+            else:
+                en = ev_expr(regs[r]["en"], pre, pre_in) if regs[r]["en"] else "1"
             if en == "X":
                 val[r] = "X" * regs[r]["w"]
                 hit("advance_enable_undefined")
@@ -390,7 +423,7 @@ def gen_expr(rng, c, W, depth, regs_w, ins_w):
 
 
 def gen_case(rng, cid, steps, family=None):
-    family = family or rng.choice(["small", "small", "small", "mhz", "q7", "shift", "reset", "inherit", "inherit"])
+    family = family or rng.choice(["small", "small", "small", "mhz", "q7", "shift", "reset", "inherit", "inherit", "scopes", "scopes"])
     freqs = MHZ_FREQS if family == "mhz" else SMALL_FREQS
     clocks = []
     nroot = rng.choice([1, 2, 2, 3])
@@ -479,6 +512,8 @@ def gen_case(rng, cid, steps, family=None):
     c = dict(id=cid, clocks=clocks, inputs=[], regs=[], order=[], rstev=[], stim=[], steps=steps, family=family)
     # inputs: a few data inputs (width W) and enable inputs (width 1)
     nd, ne = rng.choice([0, 1, 1, 2]), rng.choice([0, 1, 1, 2])
+    if family == "scopes":
+        ne = rng.choice([3, 4, 4])
     for _ in range(nd):
         c["inputs"].append(dict(w=W, clk=rng.randrange(len(clocks))))
     for _ in range(ne):
@@ -525,7 +560,25 @@ def gen_case(rng, cid, steps, family=None):
             en = f"x(i{rng.choice(en_ins)},b{rng.randrange(W)}(r{rng.randrange(nreg)}))"
         else:
             en = None
-        c["regs"].append(dict(clk=clk, w=W, rstval=rv, d=d, en=en))
+        # registers created by the frontend inside nested ENIF / IF / ELSE / ENALWAYS scopes (depth 0..4): the enable is
+        # what EnableScope / ConditionalScope accumulate; conditions are mostly 1-bit pins so that the stimulus can hold an
+        # outer condition low while the inner ones are high
+        scopes = None
+        if d is not None and (family == "scopes" or rng.random() < 0.25):
+            depth = rng.choice([0, 1, 2, 3, 3, 4, 4]) if family == "scopes" else rng.choice([1, 2, 3, 3])
+            scopes = []
+            for _ in range(depth):
+                kind = rng.choice("EEEEEIIILLA") if family == "scopes" else rng.choice("EEEIIL")
+                if kind == "A":
+                    scopes.append(("A", None))
+                    continue
+                if en_ins and rng.random() < 0.8:
+                    ce = f"i{rng.choice(en_ins)}"
+                else:
+                    ce = f"b{rng.randrange(W)}(r{rng.randrange(nreg)})"
+                scopes.append((kind, ce))
+            en = None
+        c["regs"].append(dict(clk=clk, w=W, rstval=rv, d=d, en=en, scopes=scopes))
     order = list(range(nreg)); rng.shuffle(order)
     c["order"] = order
     T = Tree(c)
@@ -538,11 +591,14 @@ def gen_case(rng, cid, steps, family=None):
         return g * rng.randrange(1, 2 * horizon + 1)
     # stimulus
     if c["inputs"]:
-        ts = sorted({rtime() for _ in range(rng.choice([2, 4, 6, 10]))})
+        ts = sorted({rtime() for _ in range(rng.choice([2, 4, 6, 10]) if family != "scopes" else rng.choice([8, 12, 20]))})
         if rng.random() < 0.7:
             ts = [F(0)] + ts
         for t in ts:
-            ws = [(p, rbits(rng, ins_w[p], 0.12)) for p in range(len(ins_w)) if rng.random() < 0.7]
+            if family == "scopes":   # conditions mostly high, each now and then low (or undefined) on its own
+                ws = [(p, rng.choice("1111111000X") if ins_w[p] == 1 else rbits(rng, ins_w[p], 0.05)) for p in range(len(ins_w)) if rng.random() < 0.8]
+            else:
+                ws = [(p, rbits(rng, ins_w[p], 0.12)) for p in range(len(ins_w)) if rng.random() < 0.7]
             if ws:
                 c["stim"].append((t, ws))
     # additional reset events (assert / release at arbitrary instants), never two on one pin at one time
